@@ -61,7 +61,13 @@ def searchRoots (p : Plan) (fs : FSnap) (multi : Bool) : List Root → WSt → E
                 | .unsupported w, _ | _, .unsupported w => .error (.unsupported w)
                 | .ok hg, .ok dk =>
                   let ig : IgnoreSet := { git := useGit, hg := hg, docker := dk }
-                  searchRoot p r (.dir e l (pruneL ig r.path canon kids) canon) st
+                  -- a root below a directory that Mercurial ignores is ignored as a whole (D71 fix): `visit_dir`
+                  -- returns before listing it
+                  let rootHgIgnored := match hg with
+                    | some fs => (ancestorsOf canon).any (hgVerdict fs)
+                    | none => false
+                  if rootHgIgnored then searchRoot p r (.dir e true [] canon) st
+                  else searchRoot p r (.dir e l (pruneL ig r.path canon kids) canon) st
               | other => searchRoot p r other st
           else if r.options.symlinks then
             if !followColumnsOK p.q then .error (.unsupported "symlinks: columns read through the link (metadata follows links)")
